@@ -35,8 +35,9 @@ Rec == ndJsonDeserialize(IOEnv.TRACE)
 NReg == 4
 
 VARIABLES l, regs, ty, nbad, hits,
+          mode,  \* number codec of the run: "plain", "scale" (all numbers times 2^se), "ulp" (floats next to 0.1)
           nh     \* the last accepted non-integer p-norm of the run: [s: operand data, d: their magnitudes, p, o]
-vars == <<l, regs, ty, nbad, hits, nh>>
+vars == <<l, regs, ty, nbad, hits, mode, nh>>
 
 NoNH == [s |-> <<>>, d |-> <<>>, p |-> 0, o |-> 0]
 
@@ -124,7 +125,21 @@ CheckUnique(e, A) ==
     ELSE IF ~e.flag THEN "NotInteger"
     ELSE IF IsUnique(A, e.out) THEN "" ELSE "Value"
 
-Check(e, A, B) ==
+(***************************************************************************)
+(* Only an in-place operation may change a register, and only its first    *)
+(* operand's.  The harness reads every operand back after the call         *)
+(* (apost / bpost: [ok, r, c, d]); a copying method that leaves its        *)
+(* receiver or its argument changed ("each in-place variant produces the   *)
+(* same result as its copying counterpart" -- and nothing else) fails the  *)
+(* clause OperandChanged.                                                  *)
+(***************************************************************************)
+SameAs(X, ok, r, c, d) == ok /\ r = X.r /\ c = X.c /\ d = X.d
+OperandsIntact(e, A, B) ==
+    \/ e.ev # "Op" \/ e.status # "ok"
+    \/ /\ (e.apost /\ A.k # "e") => SameAs(A, e.aok, e.ar, e.ac, e.ad)
+       /\ (e.bpost /\ B.k # "e") => SameAs(B, e.bok, e.br, e.bc, e.bd)
+
+CheckOp(e, A, B) ==
     CASE e.op \in RegOps  -> CheckReg(e, A, B)
       [] e.op \in QIntOps -> CheckQInt(e, A, B)
       [] e.op \in EqOps   -> CheckQBool(e, A, B)
@@ -135,6 +150,9 @@ Check(e, A, B) ==
       [] e.op = "argmax"  -> CheckArgmax(e, A)
       [] e.op \in {"unique", "v_unique"} -> CheckUnique(e, A)
       [] OTHER -> "UnknownOp"
+
+Verdict(e, A, B, cl) == IF cl = "" /\ ~OperandsIntact(e, A, B) THEN "OperandChanged" ELSE cl
+Check(e, A, B) == Verdict(e, A, B, CheckOp(e, A, B))
 
 (***************************************************************************)
 (* Per-clause counters for the vacuity check of the driver: one counter    *)
@@ -147,7 +165,9 @@ HitNames == AllOps \cup { RejName(op) : op \in RejectOps }
             \cup {"eq_false_on_shape_mismatch", "eq_false_same_size_other_shape", "approx_false_same_size_other_shape",
                   "eq_true", "eq_false_same_shape", "binary_mixed_layout", "norm_sign_independent", "unconstrained_div0",
                   "reject_ab_00", "reject_ab_01", "reject_ab_10", "reject_ab_11", "reject_vector_shaped_operand",
-                  "op_on_native_operand", "unconstrained_softmax_matrix",
+                  "op_on_native_operand", "operands_intact_after_copying_call",
+                  "op_in_scale_mode", "op_in_ulp_mode", "unique_in_scale_mode", "unique_in_ulp_mode",
+                  "minmax_in_scale_mode", "minmax_in_ulp_mode", "dot_cross_orientation", "unconstrained_softmax_matrix",
                   "unique_sorted", "argmax_tie", "inplace_equals_copy"}
 
 HitSet(e, A, B, cl) ==
@@ -170,6 +190,13 @@ HitSet(e, A, B, cl) ==
                                     ELSE (IF e.ia[2] = 0 THEN "reject_ab_10" ELSE "reject_ab_11")} ELSE {})
          \cup (IF e.status = "panic" /\ e.b # 0 /\ IsM(B) /\ IsVecShaped(B) THEN {"reject_vector_shaped_operand"} ELSE {})
          \cup (IF e.ev = "Op" /\ e.a # 0 /\ e.anat THEN {"op_on_native_operand"} ELSE {})
+         \cup (IF e.ev = "Op" /\ e.status = "ok" /\ e.apost /\ A.k # "e" THEN {"operands_intact_after_copying_call"} ELSE {})
+         \cup (IF mode = "scale" THEN {"op_in_scale_mode"} ELSE IF mode = "ulp" THEN {"op_in_ulp_mode"} ELSE {})
+         \cup (IF e.op \in {"unique", "v_unique"} /\ mode = "scale" THEN {"unique_in_scale_mode"} ELSE {})
+         \cup (IF e.op \in {"unique", "v_unique"} /\ mode = "ulp" THEN {"unique_in_ulp_mode"} ELSE {})
+         \cup (IF e.op \in {"min", "max", "argmax"} /\ mode = "scale" THEN {"minmax_in_scale_mode"} ELSE {})
+         \cup (IF e.op \in {"min", "max", "argmax"} /\ mode = "ulp" THEN {"minmax_in_ulp_mode"} ELSE {})
+         \cup (IF e.op = "dot" /\ e.status = "ok" /\ ~SameShape(A, B) THEN {"dot_cross_orientation"} ELSE {})
          \cup (IF e.op = "eq" /\ e.status = "ok" /\ e.bool THEN {"eq_true"} ELSE {})
          \cup (IF e.op = "eq" /\ e.status = "ok" /\ ~e.bool /\ A.k # "e" /\ B.k # "e" /\ SameShape(A, B) THEN {"eq_false_same_shape"} ELSE {})
          \cup (IF e.op \in {"div", "div_mut", "v_div", "v_div_mut"} /\ e.status = "ok" /\ \E x \in 1..Len(B.d) : B.d[x] = 0
@@ -188,10 +215,19 @@ HitSet(e, A, B, cl) ==
 (* the operand of an in-place call from a copy).                           *)
 (***************************************************************************)
 Target(e) == IF e.op \in WritesFirst THEN e.a ELSE e.dst
-NextRegs(e) ==
-    IF e.ev # "Op" \/ e.op \notin RegOps \/ e.status # "ok" \/ Target(e) < 1 \/ Target(e) > NReg THEN regs
-    ELSE IF ~e.flag THEN [regs EXCEPT ![Target(e)] = Empty]
-    ELSE [regs EXCEPT ![Target(e)] = [k |-> e.kind, r |-> e.r, c |-> e.c, d |-> e.d]]
+(* the operands as read back after the call (the registers hold whatever the call left in them) *)
+Post(X, ok, r, c, d) == IF X.k = "e" THEN X ELSE IF ok THEN [k |-> X.k, r |-> r, c |-> c, d |-> d] ELSE Empty
+AfterOperands(e) ==
+    IF e.ev # "Op" THEN regs
+    ELSE [i \in 1..NReg |->
+            IF e.apost /\ i = e.a THEN Post(regs[i], e.aok, e.ar, e.ac, e.ad)
+            ELSE IF e.bpost /\ i = e.b THEN Post(regs[i], e.bok, e.br, e.bc, e.bd)
+            ELSE regs[i]]
+WriteTarget(e, rg) ==
+    IF e.ev # "Op" \/ e.op \notin RegOps \/ e.status # "ok" \/ Target(e) < 1 \/ Target(e) > NReg THEN rg
+    ELSE IF ~e.flag THEN [rg EXCEPT ![Target(e)] = Empty]
+    ELSE [rg EXCEPT ![Target(e)] = [k |-> e.kind, r |-> e.r, c |-> e.c, d |-> e.d]]
+NextRegs(e) == WriteTarget(e, AfterOperands(e))
 
 (* TLC re-evaluates a LET definition at every use inside a quantifier or function
    constructor; values needed more than once are therefore passed as operator arguments
@@ -203,7 +239,7 @@ Judge(e, A, B, cl) ==
     /\ hits' = UpdHits(HitSet(e, A, B, cl))
     /\ regs' = NextRegs(e)
     /\ nh' = IF e.op \in NormHalfOps /\ cl = "" THEN [s |-> A.d, d |-> MapSeq(A.d, Abs), p |-> e.ia[1], o |-> e.out[1]] ELSE nh
-    /\ UNCHANGED ty
+    /\ UNCHANGED <<ty, mode>>
 
 OnEvent(e, A, B) == Judge(e, A, B, Check(e, A, B))
 
@@ -212,11 +248,11 @@ Step ==
     /\ l <= Len(Rec)
     /\ l' = l + 1
     /\ IF e.ev = "Reset"
-       THEN /\ regs' = EmptyRegs /\ ty' = e.ty /\ nh' = NoNH /\ UNCHANGED <<nbad, hits>>
+       THEN /\ regs' = EmptyRegs /\ ty' = e.ty /\ mode' = e.mode /\ nh' = NoNH /\ UNCHANGED <<nbad, hits>>
        ELSE OnEvent(e, IF e.ev = "Stat" THEN [k |-> e.ik, r |-> e.ir, c |-> e.ic, d |-> e.id] ELSE RegOf(e.a),
                     RegOf(e.b))
 
-Init == /\ l = 1 /\ regs = EmptyRegs /\ ty = "f64" /\ nbad = 0 /\ nh = NoNH
+Init == /\ l = 1 /\ regs = EmptyRegs /\ ty = "f64" /\ mode = "plain" /\ nbad = 0 /\ nh = NoNH
         /\ hits = [h \in HitNames |-> 0]
 Next == Step
 Spec == Init /\ [][Next]_vars
